@@ -88,7 +88,10 @@ def cfg_text(spec, constants, invariants=(), view=None, postcondition=None, prop
              constraint=None):
     lines = [f"SPECIFICATION {spec}", "CONSTANTS"]
     for k, v in constants.items():
-        lines.append(f"  {k} = {tla_value(v)}")
+        if isinstance(v, Raw) and v.s.startswith("<-"):
+            lines.append(f"  {k} {v.s}")       # substitution by an operator of the root module
+        else:
+            lines.append(f"  {k} = {tla_value(v)}")
     if invariants:
         lines.append("INVARIANTS")
         lines += [f"  {i}" for i in invariants]
@@ -105,7 +108,18 @@ def cfg_text(spec, constants, invariants=(), view=None, postcondition=None, prop
     return "\n".join(lines) + "\n"
 
 
+class Raw:
+    """A constant value given as TLA+ text (e.g. a sequence `<<2, 1>>`)."""
+    def __init__(self, s):
+        self.s = s
+
+    def __repr__(self):
+        return self.s
+
+
 def tla_value(v):
+    if isinstance(v, Raw):
+        return v.s
     if isinstance(v, bool):
         return "TRUE" if v else "FALSE"
     if isinstance(v, int):
